@@ -202,7 +202,7 @@ def instances(tier):
             yield ("CA", text, ["{S}", "({S}) + w", "w - ({S})"], ("find", expect_exact(exp_text)), "fold-chain")
     # 4. factor out  a x^n + b x^n
     cof = ["", "2", "3", "-3", "0.5", "4", "6", "12"]
-    exps = ["", "^2", "^3", "^-1", "^0.5"] if tier == "thorough" else ["", "^2", "^3"]
+    exps = ["", "^2", "^3", "^-1", "^0.5", "^0", "^1"] if tier == "thorough" else ["", "^2", "^3", "^0"]
     for a, b in itertools.product(cof, cof):
         for v in ("x", "y"):
             for e in exps:
@@ -291,8 +291,8 @@ def instances(tier):
         yield ("RS", f"({a}) - {b}" if not a.startswith("-") else f"{a} - {b}", CONTEXTS_RS,
                expect_structural(f"({a}) + {pos}" if not a.startswith("-") else f"{a} + {pos}"), "restate-double-negative")
     # 8. variable multiply  c1 x^a * c2 x^b -> (c1 * c2) * x^(a + b)
-    c8 = ["", "2", "-3", "0.5"]
-    e8 = ["", "^2", "^3", "^-1", "^0.5"]
+    c8 = ["", "2", "-3", "0.5", "0", "1"]
+    e8 = ["", "^2", "^3", "^-1", "^0.5", "^0", "^1"]
     for c1, c2 in itertools.product(c8, c8):
         for e1, e2 in itertools.product(e8, e8):
             for v in ("x", "y"):
@@ -312,6 +312,16 @@ def instances(tier):
         for eq, tnode, want in ((f"{o} + {t} = {rhs}", t, f"{o} = {rhs} - {t}"), (f"{t} + {o} = {rhs}", t, f"{o} = {rhs} - {t}"),
                                 (f"{rhs} = {o} + {t}", t, f"{rhs} - {t} = {o}"), (f"{rhs} = {t} + {o}", t, f"{rhs} - {t} = {o}")):
             yield ("BM", eq, ["{S}"], ("node", tnode, expect_structural(want), "+"), "move-addend")
+    # addends two additions below '=' : three-term sums, left-nested and right-grouped, on either side
+    for t, rhs in itertools.product(terms, ["7", "w"]):
+        o, o2 = "y", "3z"
+        for eq, want in ((f"{o} + {t} + {o2} = {rhs}", f"{o} + {o2} = {rhs} - {t}"), (f"{t} + {o} + {o2} = {rhs}", f"{o} + {o2} = {rhs} - {t}"),
+                         (f"{o} + {o2} + {t} = {rhs}", f"{o} + {o2} = {rhs} - {t}"), (f"{o} + ({t} + {o2}) = {rhs}", f"{o} + {o2} = {rhs} - {t}"),
+                         (f"{o} + ({o2} + {t}) = {rhs}", f"{o} + {o2} = {rhs} - {t}"),
+                         (f"{rhs} = {o} + {t} + {o2}", f"{rhs} - {t} = {o} + {o2}"), (f"{rhs} = {o} + {o2} + {t}", f"{rhs} - {t} = {o} + {o2}"),
+                         (f"{rhs} = {t} + {o} + {o2}", f"{rhs} - {t} = {o} + {o2}"), (f"{rhs} = {o} + ({t} + {o2})", f"{rhs} - {t} = {o} + {o2}"),
+                         (f"({o} + {t}) - {o2} = {rhs}", f"{o} - {o2} = {rhs} - {t}")):
+            yield ("BM", eq, ["{S}"], ("node", t, expect_structural(want), "+"), "move-addend-deep")
     for c, X, rhs in itertools.product(["2", "3", "-3", "0.5", "12"], ["x", "x^2", "y"], ["6", "w", "2w"]):
         yield ("BM", f"{c}{X} = {rhs}", ["{S}"], ("node", c, expect_structural(f"{c}{X} / {c} = {rhs} / {c}"), "*"), "divide-coefficient")
         yield ("BM", f"{rhs} = {c}{X}", ["{S}"], ("node", c, expect_structural(f"{rhs} / {c} = {c}{X} / {c}"), "*"), "divide-coefficient")
@@ -319,11 +329,68 @@ def instances(tier):
         yield ("BM", eq, ["{S}"], ("node-refuse", tnode, None, ptag), "move-refused")
 
 
+import re
+
+_TERM = re.compile(r"^(-?[0-9.]+)([a-z])(\^-?[0-9.]+)?( .*)$")
+
+
+def arrive_in_place(inst):
+    """The documented form must also be accepted when the tree ARRIVES at it through an in-place rewrite while
+    the same rule objects have already been asked about the earlier tree: write the first operand 'cx^n' as
+    'x^n * c', ask every rule about every node, commute that operand in place, then judge as usual."""
+    cfg, schema, contexts, expect, label = inst
+    m = _TERM.match(schema)
+    if not m or isinstance(expect, tuple) or expect == "refuse":
+        return None
+    coef, var, exp, rest = m.groups()
+    variant = f"{var}{exp or ''} * {coef}{rest}"
+    RW.reset_configs()
+    try:
+        root = RW.parse(variant)
+    except Exception:  # noqa
+        return None
+    RW.scan(root)
+    target = P(f"{var}{exp or ''} * {coef}")
+    idx, node = find_node(root, target)
+    if node is None:
+        return None
+    try:
+        RW.config(cfg).can_apply_to(root)  # the rule under test was asked about this very node just before
+        RW.config("CS+").apply_to(node)
+    except Exception:  # noqa
+        return None
+    root = RW.get_root(node)
+    s = P(schema)
+    if SG.sig(root) != s:
+        return None
+    # now the live tree is the documented form; the rule objects have history
+    rule = RW.config(cfg)
+    try:
+        can = bool(rule.can_apply_to(root))
+    except Exception as e:  # noqa
+        return [(f"{cfg}|documented-form-fails|{label}|arrived-in-place", f"{variant!r} commuted in place to {schema!r}: can_apply raises {e!r}")]
+    if not can:
+        return [(f"{cfg}|documented-form-not-accepted|{label}|arrived-in-place",
+                 f"{variant!r} commuted in place to {schema!r}: the rule now refuses the documented form")]
+    try:
+        res = rule.apply_to(root).result
+    except Exception as e:  # noqa
+        return [(f"{cfg}|documented-form-fails|{label}|arrived-in-place", f"{variant!r} -> {schema!r}: apply raises {e!r}")]
+    detail = expect({"sub": SG.sig(RW.get_root(res))}, s)
+    if detail:
+        return [(f"{cfg}|undocumented-result-shape|{label}|arrived-in-place", f"{variant!r} -> {schema!r}: {detail}")]
+    return []
+
+
 def check_instance(inst):
     """[(kind, detail)]"""
     cfg, schema, contexts, expect, label = inst
     out = []
     s = P(schema)
+    extra = arrive_in_place(inst)
+    if extra:
+        out.extend(extra)
+    RW.reset_configs()
     for ctx in contexts:
         full = ctx.replace("{S}", schema)
         try:
